@@ -253,6 +253,20 @@ class RankRunner:
                 # a state dict kept alive in memory (not pickled) must not change when training continues
                 self._snap_live = self.pre.state_dict()
                 self._snap_copy = pickle.loads(pickle.dumps(self._snap_live))
+                self._snap_params = [p.detach().clone() for p in self.model.parameters()]
+                self._snap_buffers = [b.detach().clone() for b in self.model.buffers()]
+            elif kind == 'rollback':
+                # load an older checkpoint into the SAME (live) preconditioner and put the weights back
+                with warnings.catch_warnings():
+                    warnings.simplefilter('ignore')
+                    self.pre.load_state_dict(pickle.loads(pickle.dumps(self._snap_copy)), compute_inverses=op.get('compute_inverses', True))
+                with torch.no_grad():
+                    for p, q in zip(self.model.parameters(), self._snap_params):
+                        p.copy_(q)
+                    for b, q in zip(self.model.buffers(), self._snap_buffers):
+                        b.copy_(q)
+                if self.twin is not None:
+                    kmodel.copy_params(self.model, self.twin)
             elif kind == 'check_snapshot':
                 bad = None
                 live, copy_ = self._snap_live, self._snap_copy
